@@ -466,6 +466,20 @@ func genAccessCases(r *rng) []accCase {
 			}
 		}
 
+		// two inputs on the same (namespace, type): one for the whole kind, one for a single id, of different strength -
+		// the finalizer right must come from an input that covers the id AND is strong, not from two different inputs
+		weak, strong := kinds[0], kinds[1]
+		if flavour == "q" {
+			weak, strong = kinds[2], kinds[1]
+		}
+
+		for _, outs := range outSets[:2] {
+			decls = append(decls,
+				decl{ins: []inSpec{{NS: "n1", Typ: "T", Kind: weak}, {NS: "n1", Typ: "T", ID: sp("b"), Kind: strong}}, outs: outs},
+				decl{ins: []inSpec{{NS: "n1", Typ: "T", ID: sp("a"), Kind: weak}, {NS: "n1", Typ: "T", ID: sp("b"), Kind: strong}}, outs: outs},
+			)
+		}
+
 		if !thorough() { // quick: a sample of the declaration sets, all operations
 			var sel []decl
 			for i, d := range decls {
